@@ -2375,9 +2375,10 @@ class Kconfig(object):
                     continue
 
                 name, val = match.groups()
-                if name in self.syms:
-                    sym = self.syms[name]
-
+                sym = self.syms.get(name)
+                # A symbol that is only referenced (no definition left) is
+                # in self.syms too, but sync_deps() never looks at it
+                if sym is not None and sym.nodes:
                     if sym.orig_type is STRING:
                         match = _conf_string_match(val)
                         if not match:
